@@ -5,6 +5,7 @@ import (
 	"net"
 
 	"go.brendoncarroll.net/p2p"
+	"go.brendoncarroll.net/p2p/s/swarmutil"
 )
 
 const (
@@ -27,6 +28,7 @@ It is included as a transport for secure swarms to be built on.
 */
 type Swarm struct {
 	conn *net.UDPConn
+	hub  swarmutil.TellHub[Addr]
 }
 
 func New(laddr string) (*Swarm, error) {
@@ -40,7 +42,9 @@ func New(laddr string) (*Swarm, error) {
 	}
 	s := &Swarm{
 		conn: conn,
+		hub:  swarmutil.NewTellHub[Addr](),
 	}
+	go s.recvLoop()
 	return s, nil
 }
 
@@ -53,18 +57,28 @@ func (s *Swarm) Tell(ctx context.Context, a Addr, data p2p.IOVec) error {
 	return err
 }
 
+// Receive blocks until a datagram arrives, the context is done or the swarm is closed.
+// The socket is read by recvLoop: a blocking socket read could not observe ctx.
 func (s *Swarm) Receive(ctx context.Context, th func(p2p.Message[Addr])) error {
-	buf := [TheoreticalMTU]byte{}
-	n, remoteAddr, err := s.conn.ReadFromUDP(buf[:])
-	if err != nil {
-		return err
+	return s.hub.Receive(ctx, th)
+}
+
+func (s *Swarm) recvLoop() {
+	buf := make([]byte, TheoreticalMTU)
+	for {
+		n, remoteAddr, err := s.conn.ReadFromUDP(buf)
+		if err != nil {
+			s.hub.CloseWithError(err)
+			return
+		}
+		if err := s.hub.Deliver(context.Background(), p2p.Message[Addr]{
+			Src:     FromNetAddr(*remoteAddr),
+			Dst:     FromNetAddr(*s.conn.LocalAddr().(*net.UDPAddr)),
+			Payload: buf[:n],
+		}); err != nil {
+			return
+		}
 	}
-	th(p2p.Message[Addr]{
-		Src:     FromNetAddr(*remoteAddr),
-		Dst:     FromNetAddr(*s.conn.LocalAddr().(*net.UDPAddr)),
-		Payload: buf[:n],
-	})
-	return nil
 }
 
 func (s *Swarm) LocalAddrs() []Addr {
@@ -85,5 +99,6 @@ func (s *Swarm) ParseAddr(x []byte) (Addr, error) {
 }
 
 func (s *Swarm) Close() error {
+	s.hub.CloseWithError(p2p.ErrClosed)
 	return s.conn.Close()
 }
